@@ -204,3 +204,134 @@ Ltac rd_simpl :=
   | |- context [upd ?l ?k ?v] =>
       let n := eval vm_compute in (Z.to_nat k) in change (upd l k v) with (upd_nat l n v)
   end; cbn [nth upd_nat].
+
+(* ------------------------------------------------------------------ little-endian byte combination *)
+
+(** powers of two with literal exponents, so that [lia] sees numbers *)
+Ltac pow2 :=
+  repeat match goal with
+  | |- context [2 ^ (Zpos ?p)] =>
+      let v := eval vm_compute in (2 ^ (Zpos p)) in change (2 ^ (Zpos p)) with v
+  | H : context [2 ^ (Zpos ?p)] |- _ =>
+      let v := eval vm_compute in (2 ^ (Zpos p)) in change (2 ^ (Zpos p)) with v in H
+  | |- context [(2 ^ (Npos ?p))%N] =>
+      let v := eval vm_compute in (2 ^ (Npos p))%N in change (2 ^ (Npos p))%N with v
+  | H : context [(2 ^ (Npos ?p))%N] |- _ =>
+      let v := eval vm_compute in (2 ^ (Npos p))%N in change (2 ^ (Npos p))%N with v in H
+  end.
+Ltac blia := pow2; lia.
+
+Lemma cshl_u_small w b k : 0 <= k < w -> 0 <= b -> b * 2 ^ k < 2 ^ w -> cshl_u w b k = b * 2 ^ k.
+Proof.
+  intros Hk Hb H. rewrite cshl_u_ok by exact Hk. apply Z.mod_small. split; [|exact H].
+  apply Z.mul_nonneg_nonneg; [exact Hb|]. apply Z.pow_nonneg. lia.
+Qed.
+
+Lemma cshl_s_small w b k :
+  0 < w -> 0 <= k < w -> 0 <= b -> b * 2 ^ k < 2 ^ (w - 1) -> cshl_s w b k = b * 2 ^ k.
+Proof.
+  intros Hw Hk Hb H. unfold cshl_s, shamt_ok.
+  destruct (Z.leb_spec 0 k); [|lia]. destruct (Z.ltb_spec k w); [|lia]. cbn [andb].
+  rewrite Z.shiftl_mul_pow2 by lia. apply wraps_small; [exact Hw|].
+  assert (0 <= b * 2 ^ k) by (apply Z.mul_nonneg_nonneg; [exact Hb|apply Z.pow_nonneg; lia]).
+  assert (0 < 2 ^ (w - 1)) by (apply Z.pow_pos_nonneg; lia). lia.
+Qed.
+
+(** or-ing a value shifted above the bits of [a] is adding it *)
+Lemma lor_add_shifted a b k : 0 <= k -> 0 <= a < 2 ^ k -> 0 <= b -> Z.lor a (b * 2 ^ k) = a + b * 2 ^ k.
+Proof.
+  intros Hk Ha Hb.
+  assert (D : Z.land a (b * 2 ^ k) = 0).
+  { apply Z.bits_inj_0. intros n. rewrite Z.land_spec.
+    destruct (Z_lt_le_dec n 0) as [N|N]; [rewrite !Z.testbit_neg_r by exact N; reflexivity|].
+    destruct (Z_lt_le_dec n k) as [L|L].
+    - rewrite (Z.mul_pow2_bits_low b k n) by exact L. apply andb_false_r.
+    - replace (Z.testbit a n) with false; [reflexivity|]. symmetry.
+      destruct (Z.eq_dec a 0) as [->|Na]; [apply Z.bits_0|].
+      apply Z.bits_above_log2; [lia|]. apply Z.lt_le_trans with k; [|exact L].
+      apply Z.log2_lt_pow2; lia. }
+  rewrite <- Z.lxor_lor by exact D. symmetry. apply Z.add_nocarry_lxor. exact D.
+Qed.
+
+(** [Z.lor a (b * 2^k)] from the inside out; the shifted operands must already be products *)
+Ltac lor_to_add :=
+  repeat match goal with
+  | |- context [Z.lor ?a (?b * 2 ^ ?k)] => rewrite (lor_add_shifted a b k) by blia
+  end.
+
+(** one unpacked value: ((v >> s) & mask) converted to uint32_t, against the N model *)
+Lemma unpack_elem (g s k : N) :
+  (k <= 32)%N ->
+  Z.to_N (wrapu 32 (Z.land (Z.shiftr (Z.of_N g) (Z.of_N s)) (Z.of_N (N.ones k))))
+  = N.land (N.shiftr g s) (N.ones k).
+Proof.
+  intros Hk. rewrite <- of_N_shiftr, <- of_N_land.
+  rewrite wrapu32_small; [apply N2Z.id|].
+  split; [lia|]. apply Z.le_lt_trans with (Z.of_N (N.ones k)).
+  - apply N2Z.inj_le. rewrite N.land_ones. rewrite N.ones_equiv.
+    assert (0 < 2 ^ k)%N by (apply N.neq_0_lt_0, N.pow_nonzero; discriminate).
+    pose proof (N.mod_upper_bound (N.shiftr g s) (2 ^ k) ltac:(lia)). lia.
+  - rewrite N.ones_equiv.
+    assert (2 ^ k <= 2 ^ 32)%N by (apply N.pow_le_mono_r; [discriminate|exact Hk]).
+    change (2 ^ 32)%N with 4294967296%N in *.
+    assert (0 < 2 ^ k)%N by (apply N.neq_0_lt_0, N.pow_nonzero; discriminate). lia.
+Qed.
+
+Lemma unpack_elem' (g : N) (s m : Z) (sN k : N) :
+  s = Z.of_N sN -> m = Z.of_N (N.ones k) -> (k <= 32)%N ->
+  Z.to_N (wrapu 32 (Z.land (Z.shiftr (Z.of_N g) s) m)) = N.land (N.shiftr g sN) (N.ones k).
+Proof. intros -> -> Hk. apply unpack_elem. exact Hk. Qed.
+
+Ltac list_eq := repeat match goal with |- _ :: _ = _ :: _ => f_equal end.
+
+Lemma unpack_elem_nw (g : N) (s m : Z) (sN k : N) :
+  s = Z.of_N sN -> m = Z.of_N (N.ones k) ->
+  Z.to_N (Z.land (Z.shiftr (Z.of_N g) s) m) = N.land (N.shiftr g sN) (N.ones k).
+Proof. intros -> ->. rewrite <- of_N_shiftr, <- of_N_land. apply N2Z.id. Qed.
+
+(* ------------------------------------------------------------------ bit-width loops and intrinsics *)
+
+Lemma Z_log2_of_N a : Z.log2 (Z.of_N a) = Z.of_N (N.log2 a).
+Proof. destruct a as [|p]; [reflexivity|]. destruct p; reflexivity. Qed.
+
+Lemma of_N_size a : a <> 0%N -> Z.of_N (N.size a) = Z.log2 (Z.of_N a) + 1.
+Proof. intros H. rewrite N.size_log2 by exact H. rewrite Z_log2_of_N. lia. Qed.
+
+(** the shape of an unrolled  while (v > 0) { w++; v = sh v; }  with an unroll bound of [n] iterations *)
+Fixpoint bw_iter (n : nat) (sh : Z -> Z) (v w : Z) : Z :=
+  if Z.gtb v 0 then
+    match n with O => loop_exhausted | S n' => bw_iter n' sh (sh v) (w + 1) end
+  else w.
+
+Lemma size_div2 a : a <> 0%N -> N.size a = N.succ (N.size (N.div2 a)).
+Proof. destruct a as [|[p|p|]]; intros H; try congruence; reflexivity. Qed.
+
+Lemma bw_iter_size (n : nat) (sh : Z -> Z) (v w : Z) :
+  (forall x, 0 < x < 2 ^ Z.of_nat n -> sh x = x / 2) ->
+  0 <= v < 2 ^ Z.of_nat n ->
+  bw_iter n sh v w = w + Z.of_N (N.size (Z.to_N v)).
+Proof.
+  revert v w. induction n as [|n IH]; intros v w Hsh Hv.
+  - change (2 ^ Z.of_nat 0) with 1 in Hv. assert (v = 0) by lia. subst v. cbn. lia.
+  - cbn [bw_iter]. destruct (Z.gtb_spec v 0) as [P|P].
+    + rewrite Hsh by lia.
+      assert (E : 2 ^ Z.of_nat (S n) = 2 * 2 ^ Z.of_nat n).
+      { rewrite Nat2Z.inj_succ. apply Z.pow_succ_r. lia. }
+      rewrite IH.
+      * rewrite Z2N.inj_div by lia. change (Z.to_N 2) with 2%N. rewrite <- N.div2_div.
+        rewrite (size_div2 (Z.to_N v)) by lia. lia.
+      * intros x Hx. apply Hsh. lia.
+      * split; [apply Z.div_pos; lia|]. apply Z.div_lt_upper_bound; lia.
+    + assert (v = 0) by lia. subst v. cbn. lia.
+Qed.
+
+(* ------------------------------------------------------------------ masks as remainders *)
+
+Lemma of_N_land_ones a n : Z.of_N (N.land a (N.ones n)) = wrapu (Z.of_N n) (Z.of_N a).
+Proof. rewrite N.land_ones. unfold wrapu. rewrite N2Z.inj_mod, N2Z.inj_pow. reflexivity. Qed.
+
+Lemma Z_land_1 a : Z.land a 1 = a mod 2.
+Proof. change 1 with (Z.ones 1). rewrite Z.land_ones by lia. reflexivity. Qed.
+
+Lemma N_land_1 a : N.land a 1 = (a mod 2)%N.
+Proof. change 1%N with (N.ones 1). rewrite N.land_ones. reflexivity. Qed.
